@@ -167,8 +167,12 @@ for _n, _s, _f in (("deg2rad", _D2R, np.deg2rad), ("radians", _D2R, np.radians),
 # in tests/*/CMakeLists.txt): where(maybe<less>, ...) is unsupported.  Not exercisable by a run-time monitor.
 NOT_COMPILABLE = ["clip"]
 _WHERE = "[](const auto& c, const auto& x, const auto& y){ using R = std::common_type_t<nm::meta::remove_cvref_t<decltype(c)>, nm::meta::remove_cvref_t<decltype(x)>, nm::meta::remove_cvref_t<decltype(y)>>; return static_cast<R>(c ? x : y); }"
-OPS.append(dict(name="where", ar=3, grp="minmax", dom=("any0", "any", "any"), ref=lambda c, x, y: np.where(c != 0, x, y), cls="exact",
-                variants=[(("u1", "i4", "i4"), "F_AAA|F_SAA|F_AAS|F_ASA"), (("i4", "f8", "f8"), "F_AAA|F_TAL")],
+# The condition is "non-zero", not "non-zero after a narrowing conversion": the domain `cond` is weighted towards values whose
+# low byte / low 16 bits / integer part are zero (256, -512, 65536, 2^31, 0.5, -0.25, 2^-20, 256.5 ...).
+OPS.append(dict(name="where", ar=3, grp="minmax", dom=("cond", "any", "any"), ref=lambda c, x, y: np.where(c != 0, x, y), cls="exact",
+                variants=[(("u1", "i4", "i4"), "F_AAA|F_SAA|F_AAS|F_ASA"), (("i4", "f8", "f8"), "F_AAA|F_TAL"),
+                          (("i8", "i4", "i4"), "F_AAA|F_SAA"), (("f4", "f4", "f4"), "F_AAA|F_AAS"),
+                          (("f8", "i4", "i4"), "F_AAA|F_TAL"), (("u2", "f4", "f4"), "F_AAA")],
                 call="view::where(a,b,c)", sf=_WHERE, hdr="nmtools/array/view/where.hpp", w="where", prefix="uf", params=None, note=None))
 
 # ---- activations
